@@ -33,6 +33,8 @@ Definition single_machine_b (I : instance) : bool :=
 
 (** ** Greatest element *)
 Definition is_max (l : list Z) (x : Z) : Prop := In x l /\ forall y, In y l -> y <= x.
+Definition is_maxb (l : list Z) (x : Z) : bool :=
+  existsb (Z.eqb x) l && forallb (fun y => y <=? x) l.
 
 (** ** Padded arrays ([None] = NaN) *)
 Definition pad {A} (n : nat) (l : list A) : list (option A) :=
